@@ -648,14 +648,18 @@ qb_ipcs_disconnect(struct qb_ipcs_connection *c)
 	if (c->state == QB_IPCS_CONNECTION_SHUTTING_DOWN) {
 		int scheduled_retry = 0;
 
-		if (c->closed_completed) {
+		if (c->closed_completed || c->closed_in_progress) {
 			/* connection_closed() has completed and the initial
-			 * reference is gone: nothing left to do here */
+			 * reference is gone, or this is a disconnect request
+			 * from inside connection_closed(): the connection is
+			 * being disconnected already, nothing left to do here */
 			return;
 		}
 		res = 0;
 		if (c->service->serv_fns.connection_closed) {
+			c->closed_in_progress = QB_TRUE;
 			res = c->service->serv_fns.connection_closed(c);
+			c->closed_in_progress = QB_FALSE;
 		}
 		if (res != 0) {
 			/* OK, so they want the connection_closed
